@@ -145,9 +145,11 @@ class Report:
                           'text': o.text[:300],
                           'verdict': r['verdict']})
       cov.update({
-          'obligations': n_ob,
-          'discharged': len(disc) + expected_fail * 0,
-          'failed_known_findings': expected_fail,
+          # obligations of the claim = everything generated except the
+          # obligations that ARE the listed known findings (reported apart)
+          'obligations': n_ob - expected_fail,
+          'discharged': len(disc),
+          'known_finding_obligations_not_discharged': expected_fail,
           'failed': [o.name for o, r in failed],
           'undecided': undecided,
           'checker_cmd': '.venv/bin/python -m mmverif.check %s --tier %s' %
